@@ -13,7 +13,8 @@ ID = 'C12'
 T = {'1m': 1, '3m': 3, '5m': 5, '15m': 15, '30m': 30, '45m': 45, '1h': 60}
 
 MIN = {'U': (0, 1, 0, 0), 'D': (0, -1, 0, 0), 'u': (0, 1, 1, 1), 'd': (0, -1, 1, 1), 'o': (0, 0, 1, 1),
-       'G': (-1, 2, 0, 0), 'g': (1, -2, 0, 0)}     # G: opens one tick below the previous close and rallies one tick above it
+       'G': (-1, 2, 0, 0), 'g': (1, -2, 0, 0),
+       'J': (2, -1, 0, 0)}     # opens two ticks above the previous close and falls back one: falling by its own open, rising from the previous close     # G: opens one tick below the previous close and rallies one tick above it
 
 
 def block(pattern, k):
@@ -81,6 +82,7 @@ def react_programs(tick, unit, tf, kind):
     if kind == 'futures':
         ex0.update({'sl': 'all', 'sl_d': w})
     out.append(('long-market-if-bullish-w%d' % w, {'tick': tick, 'unit': unit, 'side': 'long', 'enter': {'when': 'bullish', 'legs': [[1, 0]]}, 'on_open': ex0, 'cancel_entry': True}))
+    out.append(('long-market-if-bullish1m-w%d' % w, {'tick': tick, 'unit': unit, 'side': 'long', 'enter': {'when': 'bullish1m', 'legs': [[1, 0]]}, 'on_open': ex0, 'cancel_entry': True}))
     out.append(('long-market-if-breakout-w%d' % w, {'tick': tick, 'unit': unit, 'side': 'long', 'enter': {'when': 'breakout', 'legs': [[1, 0]]}, 'on_open': ex0, 'cancel_entry': True}))
     # an entry that is kept across trading candles, and a stop that is moved at every trading-candle close
     b = {'tick': tick, 'unit': unit, 'side': 'long'}
@@ -113,7 +115,7 @@ def configs(quick):
     if quick:
         out.append(('1m', [], 'futures', ('minutes', 'UDu', 5), 6))
         out.append(('1m', [], 'spot', ('minutes', 'UDu', 5), 3))
-        out.append(('3m', [], 'futures', ('minutes', 'UDGg', 5), 6))
+        out.append(('3m', [], 'futures', ('minutes', 'UDGJ', 5), 6))
         out.append(('3m', [], 'spot', ('minutes', 'UDud', 5), 3))
         out.append(('5m', [], 'futures', ('blocks', 5, P4, 3), 6))
         out.append(('5m', [], 'spot', ('blocks', 5, P4b, 3), 3))
@@ -130,7 +132,7 @@ def configs(quick):
         return out
     for kind, n in (('futures', 6), ('spot', 3)):
         out.append(('1m', [], kind, ('minutes', 'UDud', 7), n))
-        out.append(('3m', [], kind, ('minutes', 'UDuGg', 6), n))
+        out.append(('3m', [], kind, ('minutes', 'UDuGgJ', 6), n))
         out.append(('5m', [], kind, ('blocks', 5, P5, 4), n))
     out.append(('5m', [], 'futures-iso', ('minutes', 'UD', 10), 6))
     out.append(('3m', [['BTC-USDT', '15m']], 'futures', ('blocks', 3, P5, 5), 6))
